@@ -39,7 +39,7 @@ def propFailures (env : Env) (cands : List Nat) (pre : Screen) (c : Call) (post 
   (if C08.propC08 cands pre c post then [] else
     [("C08", s!"rendition after SGR is not the documented fold (got fg={post.cursor.attr.fg} bg={post.cursor.attr.bg}), or something else changed")]) ++
   (if C12.propC12 cands pre c post then [] else
-    [("C12", s!"mode membership or a documented side effect of {c.name} is wrong (columns={post.columns}, cursor=({post.cursor.x},{post.cursor.y}), hidden={post.cursor.hidden})")]) ++
+    [("C12", s!"mode membership or a documented side effect of {c.name} is wrong - for SGR: the reverse flag a reset inside the list resets to is not the mode's (columns={post.columns}, cursor=({post.cursor.x},{post.cursor.y}), hidden={post.cursor.hidden}, reverse={post.cursor.attr.reverse})")]) ++
   (if C14.propC14 cands pre c post then [] else
     [("C14", s!"saved-cursor stack / restored state after {c.name} differ from the documented outcome (depth {post.savepoints.length}, cursor=({post.cursor.x},{post.cursor.y}))")]) ++
   (if C15.propC15 cands pre c post then [] else
